@@ -65,6 +65,32 @@ private def srcCollect (next : BitVec 64 × BitVec 64 → R (Option (BitVec 64) 
     | .ok (none, _) => some (.ok (cnt, h))
     | .ok (some x, r') => srcCollect next fuel r' (cnt + 1) (hashStep h x.toNat)
 
+/-- C08: what the generated getters report about entry `e`: `raw addr flags unused frame|n`
+(a panicking getter is printed as `panic`). -/
+private def srcObserve (cfg : Cfg) (e : BitVec 64) : List String :=
+  [toString e.toNat] ++ sVal (Src.PageTableEntry_addr cfg e) ++ sVal (Src.PageTableEntry_flags cfg e)
+    ++ (match Src.PageTableEntry_is_unused cfg e with | .ok b => [if b then "1" else "0"] | .panic => ["panic"])
+    ++ (match Src.PageTableEntry_frame cfg e with
+        | .ok (.ok f) => [toString f.toNat] | .ok (.error _) => ["n"] | .panic => ["panic"])
+
+/-- C08: a history of setter calls `(kind, a, f)*` (0 set_addr, 1 set_frame, 2 set_flags, 3 set_unused) on the
+generated definitions; a panicking call prints `p` and leaves the entry as it was. -/
+private def srcEntrySeq (cfg : Cfg) (e : BitVec 64) : List Nat → Option (List String)
+  | [] => some []
+  | k :: a :: f :: rest =>
+    let r : Option (R (Unit × BitVec 64)) :=
+      match k with
+      | 0 => some (Src.PageTableEntry_set_addr cfg e (b64 a) (b64 f))
+      | 1 => some (Src.PageTableEntry_set_frame cfg e (b64 a) (b64 f))
+      | 2 => some (Src.PageTableEntry_set_flags cfg e (b64 f))
+      | 3 => some (Src.PageTableEntry_set_unused cfg e)
+      | _ => none
+    match r with
+    | none => none
+    | some (.ok (_, e')) => (srcEntrySeq cfg e' rest).map (srcObserve cfg e' ++ ·)
+    | some .panic => (srcEntrySeq cfg e rest).map ("p" :: ·)
+  | _ => none
+
 def srcOut (cfg : Cfg) (op : String) (a : Array Nat) : Option (List String) :=
   match op, a.toList with
   | "va_try_new", [x] => some (sRes (Src.VirtAddr_try_new cfg (b64 x)))
@@ -148,6 +174,7 @@ def srcOut (cfg : Cfg) (op : String) (a : Array Nat) : Option (List String) :=
          | some .panic => ["items", "panic"]
          | some (.ok (n, h)) => ["items", "ok", toString n, toString h]))
     | _, _, _ => none
+  | "pte_seq", e0 :: _n :: rest => srcEntrySeq cfg (b64 e0) rest
   -- C19 / C14 / C15: selectors, privilege levels, descriptors
   | "sel_new", [i, r] => if r < 4 then some (sVal (Src.SegmentSelector_new cfg (b16 i) (b8 r))) else none
   | "sel_index", [s] => some (sVal (Src.SegmentSelector_index cfg (b16 s)))
